@@ -263,6 +263,10 @@ def run_case(case):
             for i, r in enumerate(lst):
                 exp = table[(nm, i)]
                 counters["entries_compared"] += 1
+                if not isinstance(r, dict) or any(k_ not in r for k_ in ("conc", "flx", "grid")):
+                    # an empty slot (None) or something that is not a result: the entry of this tower and step is missing
+                    viol.append(dict(what="entry_missing_or_not_a_result", tower=nm, step=i, got=repr(r)[:80], driver=label, **ctx))
+                    continue
                 bit = True
                 for k in ("conc", "flx"):
                     a, b_ = np.asarray(r[k]), np.asarray(exp[k])
